@@ -36,8 +36,9 @@ def cmpHex (a c : String) : Int :=
 def mk (agree : Bool) (spec : List String) (tags : List String) (model : String) : Verdict :=
   { agree := agree, spec := spec, tags := tags ++ ["nt"], model := model }
 
-def run (inp obs : List String) : Verdict :=
+def runKind (inp obs : List String) : Verdict :=
   match inp with
+  | [_, "aborted", _] => { agree := false, spec := ["panic:small,stream-aborted"], model := "-" }
   | [_, "name", h] =>
     match unhexStr h with
     | none => { agree := false, model := "bad-input" }
@@ -65,10 +66,11 @@ def run (inp obs : List String) : Verdict :=
     | some s =>
       let v := Glif.validIdent s
       let verbatim := kv obs "ser" = h && kv obs "asref" = "1" && kv obs "desame" = "1"
+      let deserOK := kv obs "de" ≠ "1" || kv obs "deser" = h
       let spec :=
         (if kv obs "new" = kv obs "de" then [] else ["small:ident:constructors-disagree"]) ++
         (if kv obs "new" = b v then [] else ["small:ident:valid-set"]) ++
-        (if kv obs "new" = "1" && !verbatim then ["small:ident:not-verbatim"] else [])
+        (if (kv obs "new" = "1" && !verbatim) || !deserOK then ["small:ident:not-verbatim"] else [])
       mk (kv obs "new" = b v) spec ["sm-ident", if v then "valid" else "invalid"] ("valid=" ++ b v)
   | [_, "identeq", a, c] =>
     let eq := a = c
@@ -141,5 +143,12 @@ def run (inp obs : List String) : Verdict :=
       let ok := obs.headD "?" = want
       mk ok (if ok then [] else ["small:pointtype:names"]) ["sm-ptype"] want
   | _ => { agree := false, model := "bad-line" }
+
+/-- a probe that panicked (or a value that made a serialiser panic) is a C03 matter whatever else it is -/
+def run (inp obs : List String) : Verdict :=
+  let v := runKind inp obs
+  if obs.any (fun t => t.endsWith "=panic" || t = "panic") then
+    { v with spec := v.spec ++ ["panic:small," ++ (inp.drop 1).headD "?"] }
+  else v
 
 end Driver.Small
